@@ -1538,7 +1538,17 @@ func (g *Gen) loopHead(b *ssa.BasicBlock, k int, li *loopInfo) {
 			nv := g.fresh("H_"+n+"@loop", s)
 			g.pristine[nv] = true
 			g.cur[n] = nv
-			if lc.KeepsOld && strings.HasPrefix(s, "(Array Int ") && !strings.HasPrefix(n, "GH_") && !strings.HasPrefix(n, "GS_") {
+			inAssigns := false
+			if lc.KeepsOld && fr.c != nil {
+				// components the function may write on objects of its caller (its `assigns`) are not
+				// covered by `keeps old objects`: invariants speak about them
+				for _, ac := range g.assignComps(fr.c) {
+					if ac == n {
+						inAssigns = true
+					}
+				}
+			}
+			if lc.KeepsOld && !inAssigns && strings.HasPrefix(s, "(Array Int ") && !strings.HasPrefix(n, "GH_") && !strings.HasPrefix(n, "GS_") {
 				// `keeps old objects`: assumed here relative to the heap before the loop, proved at every back edge
 				g.assumeAlways(fmt.Sprintf("(forall ((r Int)) (! (=> (and (<= 0 r) (< r %s)) (= (select %s r) (select %s r))) :pattern ((select %s r))))", refBound, nv, prev, nv))
 				if fr.loopKeep == nil {
@@ -1786,6 +1796,14 @@ func (g *Gen) modifiedIn(body map[*ssa.BasicBlock]bool) map[string]bool {
 						for _, a := range ct.Assigns {
 							one := *ct
 							one.Assigns = []*Expr{a}
+							if depth == 0 {
+								// `assigns p.f` where the argument passed for p is fixed before the loop: only that
+								// object's field is unknown at the loop head (as for a direct store through it)
+								if comp, ref, ok := g.invariantAssignTarget(a, &one, callee, cc, body); ok {
+									precise[comp] = append(precise[comp], ref)
+									continue
+								}
+							}
 							fresh := depth == 0 && g.assignRootIsBodyAlloc(a, callee, cc, body)
 							for _, n := range g.assignComps(&one) {
 								m[n] = true
@@ -1859,6 +1877,51 @@ func rootIsBodyAlloc(a ssa.Value, body map[*ssa.BasicBlock]bool) bool {
 		}
 	}
 	return false
+}
+
+// an assigns target `p.f` (scalar field) of a callee's contract where the argument passed for p is a value
+// defined before the loop: returns the field's component and the object's reference term
+func (g *Gen) invariantAssignTarget(a *Expr, one *Contract, callee *ssa.Function, cc *ssa.CallCommon, body map[*ssa.BasicBlock]bool) (string, string, bool) {
+	if callee == nil || cc.IsInvoke() || a.Op != "sel" || a.Args[0].Op != "id" {
+		return "", "", false
+	}
+	for i, p := range callee.Params {
+		if p.Name() != a.Args[0].Val || i >= len(cc.Args) {
+			continue
+		}
+		pt, ok := p.Type().Underlying().(*types.Pointer)
+		if !ok {
+			return "", "", false
+		}
+		st, ok := pt.Elem().Underlying().(*types.Struct)
+		if !ok {
+			return "", "", false
+		}
+		fi, path := findField(pt.Elem(), a.Val)
+		if fi < 0 || len(path) != 1 || isAggregate(st.Field(path[0]).Type()) {
+			return "", "", false
+		}
+		v := cc.Args[i]
+		outside := false
+		switch x := v.(type) {
+		case *ssa.Parameter, *ssa.Global, *ssa.FreeVar:
+			outside = true
+		case ssa.Instruction:
+			outside = !body[x.Block()]
+		}
+		if !outside {
+			return "", "", false
+		}
+		if _, isLv := g.fr.lv[v]; isLv {
+			return "", "", false
+		}
+		if _, have := g.fr.val[v]; !have && !isParam(v) {
+			return "", "", false
+		}
+		c, _ := g.fieldComp(pt.Elem(), path[0])
+		return c, g.term(v), true
+	}
+	return "", "", false
 }
 
 // an assigns target `p`, `*p` or `p.f` of a callee's contract, where the argument passed for p at this call
